@@ -4,7 +4,7 @@ CONSTANTS
   Vals = {1, 2}
   MaxDets = 2
   Models = {4}
-  DesVals = {0, 1}
+  DesVals = {0}
   Shared = TRUE
   RemovePen = FALSE
   RecomputeAlways = TRUE
